@@ -252,12 +252,7 @@ impl Fdt {
         filedesc.set_published();
         self.fdt_transfer_queue.push_back(filedesc);
         self.fdtid = (self.fdtid + 1) & 0xFFFFF;
-        // Expires is expressed in whole seconds: count the age of the instance from the same second
-        let subsec = now
-            .duration_since(SystemTime::UNIX_EPOCH)
-            .map(|d| d.subsec_nanos())
-            .unwrap_or(0);
-        self.last_publish = Some(now - std::time::Duration::from_nanos(subsec as u64));
+        self.last_publish = Some(now);
         self.files.iter().for_each(|(_, file)| file.set_published());
         Ok(())
     }
@@ -275,20 +270,29 @@ impl Fdt {
             return true;
         }
 
-        let duration = now
-            .duration_since(self.last_publish.unwrap())
-            .unwrap_or_default();
+        // Expires is expressed in whole seconds: the instance published at `published`
+        // is valid until the second it was published in plus the FDT duration
+        let published = self.last_publish.unwrap();
+        let subsec = published
+            .duration_since(SystemTime::UNIX_EPOCH)
+            .map(|d| d.subsec_nanos())
+            .unwrap_or(0);
+        let expires = published - std::time::Duration::from_nanos(subsec as u64) + self.duration;
+        let remaining = expires.duration_since(now).unwrap_or_default();
 
         if self.duration > std::time::Duration::from_secs(30) {
-            return self.duration - std::time::Duration::from_secs(5) < duration;
+            return remaining < std::time::Duration::from_secs(5);
         }
 
         if self.duration > std::time::Duration::from_secs(10) {
-            return self.duration - std::time::Duration::from_secs(1) < duration;
+            return remaining < std::time::Duration::from_secs(1);
         }
 
-        // Short-lived FDT: renew it when three quarters of its lifetime have elapsed
-        self.duration - self.duration / 4 <= duration
+        // Short-lived FDT: renew it when three quarters of the lifetime it had left when it
+        // was published have elapsed, never at the very instant of its publication
+        let lifetime = expires.duration_since(published).unwrap_or_default();
+        let age = now.duration_since(published).unwrap_or_default();
+        !age.is_zero() && lifetime - lifetime / 4 <= age
     }
 
     pub fn get_next_fdt_transfer(&mut self, now: SystemTime) -> Option<Arc<FileDesc>> {
